@@ -344,6 +344,12 @@ def run(tier):
     check_exhaustive(rep)
     check_rotate(rep)
     check_udg_methods(rep)          # Udg.rotate / Udg.flip: graphic and mask transformed alike, for every parameter value
+    check_writer_state(rep)         # the image writers keep no state between images
+    nr, badr = writer_reuse_bounded(common.seed(), 40)
+    rep.bounded.append({'function': 'skoolkit.image.ImageWriter.write_image (one writer, several images)', 'contract': 'each image is byte-identical to the one a fresh writer produces',
+                        'bound': '40 writers x 4 images (masks, explicit and default alpha)', 'evaluations': nr})
+    for b in badr[:2]:
+        rep.violation('C15/writer_reuse', 'image %d written by a reused ImageWriter%s differs from the one a fresh writer produces (alpha=%s, mask=%s)' % (b[1] + 1, b[2], b[3], b[4]), {'case': {'writer_reuse': list(map(str, b))}})
     na, bada = arrays_small_scope()
     rep.bounded.append({'function': 'skoolkit.graphics.flip_udgs / rotate_udgs', 'contract': 'pixel and mask grids of the array == reference flip / rotation of the original grids',
                         'bound': 'array shapes 1x1..3x3, 3 random fillings each, flip 0..3, rotate 0..4', 'evaluations': na})
@@ -375,6 +381,17 @@ def replay(path):
         doc = json.load(f)
     print('replaying', doc.get('key'), doc.get('case'))
     case = doc.get('case')
+    if isinstance(case, dict) and ('writer_reuse' in case or 'writer_state' in case):
+        n, bad = writer_reuse_bounded(common.seed(), 40)
+        print(bad[:2])
+        if bad:
+            print('VIOLATION property=C15 replay=%s' % path)
+            return 1
+        if doc.get('no_failing_input_found'):
+            print(doc.get('what'))
+            print('VIOLATION property=C15 replay=%s no-failing-input-found' % path)
+            return 1
+        return 0
     if isinstance(case, dict) and 'udg_method' in case:
         r = replay_udg(case['udg_method'], case['arg'])({}, '')
         print(r['diffs'])
@@ -542,3 +559,88 @@ def arrays_small_scope():
                         if got != exp:
                             bad.append((kind, arg, (h, w), attr))
     return n, bad
+
+
+# ------------------------------------------------------------------ frame condition: the writers are configuration, not state
+def check_writer_state(rep):
+    """AST dataflow obligation: after construction, no method of PngWriter / ImageWriter assigns (or deletes, or
+    augments) an attribute of self - so what write_image emits is a function of the frames and the configuration only.
+    Methods that are reachable only from __init__ may initialise attributes."""
+    import ast
+    import inspect
+    import skoolkit.pngwriter as PW
+    import skoolkit.image as IM
+    for mod, cname in ((PW, 'PngWriter'), (IM, 'ImageWriter')):
+        cls = getattr(mod, cname)
+        tree = ast.parse(inspect.getsource(mod))
+        cdef = next(n for n in tree.body if isinstance(n, ast.ClassDef) and n.name == cname)
+        methods = {n.name: n for n in cdef.body if isinstance(n, ast.FunctionDef)}
+
+        def callees(fn):
+            return {c.func.attr for c in ast.walk(fn) if isinstance(c, ast.Call) and isinstance(c.func, ast.Attribute)
+                    and isinstance(c.func.value, ast.Name) and c.func.value.id == 'self' and c.func.attr in methods}
+        # methods reachable from __init__ ...
+        init_reach = set()
+        todo = ['__init__'] if '__init__' in methods else []
+        while todo:
+            m = todo.pop()
+            if m in init_reach:
+                continue
+            init_reach.add(m)
+            todo.extend(callees(methods[m]))
+        # ... but not from any public method outside that set
+        other_reach = set()
+        todo = [m for m in methods if m not in init_reach]
+        while todo:
+            m = todo.pop()
+            if m in other_reach:
+                continue
+            other_reach.add(m)
+            todo.extend(callees(methods[m]))
+        init_only = init_reach - other_reach
+        for mname, fn in methods.items():
+            if mname in init_only:
+                continue
+            stores = []
+            for n in ast.walk(fn):
+                targets = []
+                if isinstance(n, ast.Assign):
+                    targets = n.targets
+                elif isinstance(n, (ast.AugAssign, ast.AnnAssign)):
+                    targets = [n.target]
+                elif isinstance(n, ast.Delete):
+                    targets = n.targets
+                for t in targets:
+                    for sub in ast.walk(t):
+                        if isinstance(sub, ast.Attribute) and isinstance(sub.value, ast.Name) and sub.value.id == 'self' and isinstance(sub.ctx, (ast.Store, ast.Del)):
+                            stores.append((sub.attr, n.lineno))
+                        if isinstance(sub, ast.Subscript) and isinstance(sub.value, ast.Attribute) and isinstance(sub.value.value, ast.Name) and sub.value.value.id == 'self' and isinstance(sub.ctx, (ast.Store, ast.Del)):
+                            stores.append((sub.value.attr + '[...]', n.lineno))
+            oid = 'C15/%s.%s.%s/frame.self_unchanged' % (mod.__name__, cname, mname)
+            rep.add(oid, 'proved' if not stores else 'failed', 'ast-dataflow', 0, '%s.%s (frame condition)' % (mod.__name__, cname))
+            if stores:
+                rep.violation('C15/%s.%s/frame.self_unchanged' % (cname, mname), '%s.%s assigns self.%s (line %d of the class body): a later image written by the same writer depends on an earlier one' % (
+                    cname, mname, stores[0][0], stores[0][1]), {'case': {'writer_state': cname, 'method': mname, 'attribute': stores[0][0]}}, no_input=True)
+
+
+def writer_reuse_bounded(seed, n):
+    """B: images written one after another by one ImageWriter are byte-identical to the same images written by fresh writers."""
+    from skoolkit.image import ImageWriter
+    from skoolkit.graphics import Udg, Frame
+    rnd = random.Random('%s/reuse' % seed)
+    bad = []
+    for trial in range(n):
+        opts = {'PNGAlpha': rnd.choice((0, 255, 100)), 'PNGEnableAnimation': rnd.randrange(2)}
+        shared = ImageWriter(dict(opts))
+        for k in range(4):
+            mask = rnd.randrange(3)
+            udgs = [[Udg(rnd.choice((56, 7, 184)), [rnd.randrange(256) for _ in range(8)], [rnd.randrange(256) for _ in range(8)] if mask else None)]]
+            alpha = rnd.choice((-1, -1, 0, 255, 77))
+            fr = Frame(udgs, rnd.randrange(1, 3), mask, alpha=alpha)
+            f1, f2 = io.BytesIO(), io.BytesIO()
+            shared.write_image([fr], f1)
+            ImageWriter(dict(opts)).write_image([fr], f2)
+            if f1.getvalue() != f2.getvalue():
+                bad.append((trial, k, opts, alpha, mask))
+                break
+    return n * 4, bad
